@@ -420,6 +420,11 @@ struct DmHarness : Harness
             } else if (k == 9) {
                 snprintf(b, sizeof(b), "default kind=%d", kind);
                 p.ops.push_back(b);
+            } else if (k == 10 && g.chance(0.3)) {
+                // the bundled driver's own table, asked directly through the
+                // driver interface (the manager never asks beyond the count)
+                snprintf(b, sizeof(b), "drvprobe i=%d", (int)g.range(0, 12));
+                p.ops.push_back(b);
             } else if (k == 10) {
                 snprintf(b, sizeof(b), "get i=%d", (int)g.range(-1, 40));
                 p.ops.push_back(b);
@@ -818,6 +823,43 @@ struct DmHarness : Harness
                                     "a corrupted identifier left a device "
                                     "open");
                 }
+            } else if (op.name == "drvprobe") {
+                simdl::Lib lib;
+                simdl::reset_common(&lib);
+                struct Driver* d = lib.init ? lib.init(quiet) : nullptr;
+                if (!d)
+                    continue;
+                uint32_t n = d->device_count(d);
+                int64_t k = op.i("i");
+                // indices around the end of the table and far beyond it
+                static const uint64_t far[] = { 255, 256, 65535, 1ull << 32,
+                                                UINT64_MAX };
+                uint64_t idx = k < 8 ? (uint64_t)((int64_t)n - 4 + k)
+                                     : far[(k - 8) % 5];
+                struct DeviceIdentifier id;
+                memset(&id, 0xEE, sizeof(id));
+                enum DeviceStatusCode rc = d->describe(d, &id, idx);
+                probe("n.driver_probes");
+                if (idx >= n && rc == Device_Ok)
+                    oracle_fail("C12.out_of_range_index_described",
+                                "the bundled driver has %u devices but "
+                                "describe(%llu) returned Device_Ok ('%.40s')",
+                                n, (unsigned long long)idx, id.name);
+                if (idx < n && rc != Device_Ok)
+                    oracle_fail("C12.enumerated_index_not_described",
+                                "the bundled driver has %u devices but "
+                                "describe(%llu) failed",
+                                n, (unsigned long long)idx);
+                if (idx >= n) {
+                    struct Device* dev = nullptr;
+                    if (d->open(d, idx, &dev) == Device_Ok)
+                        oracle_fail("C12.out_of_range_index_opened",
+                                    "the bundled driver has %u devices but "
+                                    "open(%llu) returned Device_Ok",
+                                    n, (unsigned long long)idx);
+                }
+                free(d); // (its shutdown() would tear down state shared
+                         // with the manager's instance)
             } else if (op.name == "openall") {
                 for (auto& e : model) {
                     if (!e.describe_ok)
